@@ -743,11 +743,44 @@ def run(ctx):
                                      {"correspondence": op, "line": lines[slot["matrix"]][:2000], "code": cv, "model": mv, "input": rcase}))
             if len(ctx.violations) > 5 or ctx.counters.get("correspondence_break_property_holds", 0) >= 150:
                 break                       # (each evaluation of the specification costs driver calls)
+    large_closed_form(ctx)
     if deferred and not any(found for _, found in ctx.violations):
         for what, rec_ in deferred:
             ctx.violation(what, rec_, found_input=False)
     ctx.extra["tolerance"] = ("value: 1e-9 * (largest |coordinate|) * (rows of the augmented matrix); matrix entries: distance entries exact "
                               "where the arithmetic is exact, else 1e-9 relative to the entry; diagonal-cost entries 1e-9 * |coordinates of the point|")
+
+
+def large_closed_form(ctx):
+    """[T] sizes far beyond the certified range (1000-2500 points), where the specification value is known in closed form:
+    against the empty diagram (either order) the minimum over partial matchings is the total diagonal cost sum (d-b)/sqrt2, and
+    against a reordering of itself it is 0.  Catches size-threshold slips (blocked computations that lose a remainder block)."""
+    if len(ctx.violations) > 5:
+        return
+    ws = common.pm("wasserstein").wasserstein
+    r = ctx.rng
+    for n in ([1100, 2053] if not ctx.thorough else [1025, 1100, 2049, 2500, 4100]):
+        pts = [[float(r.randint(0, 400)) / 4.0, 0.0] for _ in range(n)]
+        for p in pts:
+            p[1] = p[0] + float(r.randint(1, 200)) / 4.0
+        A = np.array(pts, dtype=float)
+        want = float(np.sum(A[:, 1] - A[:, 0]) / math.sqrt(2.0))
+        empty = np.zeros((0, 2))
+        perm = A[np.random.RandomState(r.randint(0, 2 ** 31 - 1)).permutation(n)]
+        import warnings
+        with warnings.catch_warnings():
+            warnings.simplefilter("ignore")
+            got = [("large vs empty", float(ws(A, empty)), want), ("empty vs large", float(ws(empty, A)), want),
+                   ("large vs its reordering", float(ws(A, perm)), 0.0)]
+        for what, v, w in got:
+            ok = math.isfinite(v) and abs(v - w) <= 1e-9 * 150.0 * n
+            ctx.test("closed_form_large(real code)", ok)
+            ctx.count("large_closed_form:n=%d" % n)
+            if not ok:
+                ctx.violation("wasserstein of a %d-point diagram (%s) is %r, the minimum over partial matchings is %r" % (n, what, v, w),
+                              {"dgm1": pts if what != "empty vs large" else [], "dgm2": [] if what == "large vs empty" else (pts if what == "empty vs large" else perm.tolist()),
+                               "kinds": ["array", "array"], "mode": "dyadic", "scale_exp": 0, "closed_form": w}, found_input=True)
+                return
 
 
 def _parse_dgm(d):
